@@ -181,13 +181,14 @@ PROPS = {
                 "and camera lepton3 / lepton3.5 / boson at 16x12 (some 160x120), hostile firmware strings, serial up to 2^32-1; frame content: static scene + toggling hot pixel, random 16-bit, checkerboard 1<->65535; random telemetry words. "
                 "Every finished file is decoded with the stock go-cptv reader and compared with the reference pipeline: background first (all zero with a fixed threshold), frames pixel- and telemetry-exact (ms / float32 resolution) "
                 "and consecutive, header fields == config/camera, motion YAML == settings in force + triggeredthresh, continuous files == tiling, motion files == RefDetector+RefRecorderFSM prediction (fixed-threshold modes). "
+                "Every 8th connection runs with throttling active (3 s bucket, 500 ms refill, paced continuous motion) so that files are cut and resumed in mid-event; those files are checked structurally (background first, threshold at trigger, frames exact and consecutive). "
                 "Non-trivial = connection that produced at least one finished file.",
         "assumptions": COMMON_ASSUME + ["CPTV field ranges: serial uint32, preview-secs/fps uint8, strings <= 255 bytes, altitude >= 0 (go-cptv omits negative altitudes)",
                                         "dynamic-threshold connections are checked structurally (frames, header, consecutiveness), not predicted"],
         "level_text": "Offline differential checker: decode everything the daemon wrote and compare with a reference pipeline composed from models that the unit-tier checks validated against the real components.",
         "level_note": "go-cptv and go-config are pinned dependencies and part of the system under observation.",
         "technique": "offline differential checker (decoded output vs reference pipeline)",
-        "jobs": [{"pkg": "recorder-main", "test": "TestVerif_C11", "race": True, "shards": (16, 16), "timeout": (600, 3000), "require": ["connections", "frames_compared", "motion_files", "continuous_files", "mode_0_connections", "mode_1_connections", "mode_2_connections", "predicted_motion_frames"]}],
+        "jobs": [{"pkg": "recorder-main", "test": "TestVerif_C11", "race": True, "shards": (16, 16), "timeout": (600, 3000), "require": ["connections", "frames_compared", "motion_files", "continuous_files", "mode_0_connections", "mode_1_connections", "mode_2_connections", "mode_3_connections", "throttle_resumed_files_checked", "predicted_motion_frames"]}],
     },
     "C12": {
         "title": "Sinks see writes only inside start..stop; faults never crash the pipeline",
@@ -303,14 +304,15 @@ PROPS = {
         "level": "exploration",
         "exhaustive_possible": False,
         "rule": "part 1: BFS over every (product state, operation) pair of real FrameLoop x RefRing for capacities 1..8 under {stamp+Move, SetAsOldest, Reset} "
-                "(each transition is a case; distinct = distinct (state, op) pairs); part 2: seeded random operation sequences, capacity 1..64; "
+                "(each transition is a case; distinct = distinct (state, op) pairs); part 1b: from every reachable state of capacities 1..6: observe, then 1..3N+1 unobserved moves (optionally ending in a mark), observe again "
+                "(observations reuse internal buffers, so the monitor must also look sparsely); part 2: seeded random operation sequences, capacity 1..64, observed after every op / sparsely / whole laps apart; "
                 "after every operation GetHistory/Oldest/CopyRecent/Current are compared with the model; non-trivial = every transition / every completed random sequence",
         "assumptions": COMMON_ASSUME + ["the current slot is written before each Move (as MotionProcessor and motionDetector do)",
                                         "RefRing (harness/motion/c19_test.go) is the specification"],
         "level_text": "Reference-model monitor on the real FrameLoop: every transition out of every reachable (implementation x model) state for capacities 1..8 is executed and judged, plus random long sequences up to capacity 64. Exploration is the right level: the ring is small and deterministic, so the BFS part is complete for those capacities while larger ones are sampled.",
         "level_note": "Trusts RefRing as the specification and that product states are captured by (currentIndex, bufferFull, oldest, min(n,N), mark age).",
         "technique": "reference-model runtime monitor (BFS + random operation sequences)",
-        "jobs": [{"pkg": "motion", "test": "TestVerif_C19", "shards": (4, 16), "timeout": (120, 900), "require": ["bfs_transitions", "random_ops"]}],
+        "jobs": [{"pkg": "motion", "test": "TestVerif_C19", "shards": (4, 16), "timeout": (120, 900), "require": ["bfs_transitions", "random_ops", "sparse_observation_pairs", "random_observations"]}],
     },
     "C20": {
         "title": "Log limiter drops only exact repeats inside the interval, nothing else",
